@@ -506,7 +506,17 @@ def run_native(script_text, profile='dev', path=None):
         rm = False
     try:
         open(path, 'w').write(script_text)
-        r = subprocess.run([b, path], capture_output=True, text=True, timeout=120)
+        lock = None
+        if profile == 'embed':
+            # the embed variant reads ONE folder (compile-time path) at run time: serialise concurrent check runs
+            import fcntl
+            lock = open('/var/tmp/verif-embed.lock', 'w')
+            fcntl.flock(lock, fcntl.LOCK_EX)
+        try:
+            r = subprocess.run([b, path], capture_output=True, text=True, timeout=120)
+        finally:
+            if lock is not None:
+                lock.close()
         if r.returncode != 0:
             raise RuntimeError('native driver failed (%d): %s' % (r.returncode, r.stderr[-2000:]))
         # the library itself prints to stdout in places (a leftover println! in async create_dir_all): keep driver lines only
